@@ -7,8 +7,14 @@
 (* reference VT100 does.  Besides the subset the property lists (Listed) the contract covers  *)
 (* what a VT100 documents next to it (Ext): text runs, IND / NEL, CHA / VPA / CNL / CPL, ECH, *)
 (* tab stops (HT / HTS / TBC), origin / insert / autowrap / new-line mode, save and restore   *)
-(* cursor (ESC 7 / ESC 8, CSI s / CSI u), charsets (SO / SI / SCS), and the queries DSR, CPR  *)
-(* and DA (Query, Replies).                                                                   *)
+(* cursor (ESC 7 / ESC 8, CSI s / CSI u), charsets (SO / SI / SCS), the main character set   *)
+(* (ESC % G: the bytes that follow are UTF-8, ESC % @: single 8-bit characters; "mcs") with    *)
+(* runs of raw bytes at or above 0x80 decoded by the reference itself ("raw"), and the queries *)
+(* DSR, CPR and DA (Query, Replies).                                                           *)
+(* "any chunking of the stream across feeds": the reference is a function of the stream alone, *)
+(* so whatever the stream is cut into, the terminal must show Ref folded over its commands;    *)
+(* the trace specification judges every re-feeding of a stream under another chunking against  *)
+(* the same reference state (VTermTrace: RefeedStep, RechunkVerdict).                          *)
 (* Cands(t, c, strict) is the sequence of terminal states the trace specification accepts    *)
 (* after c: always Ref first; when not strict also the "console dialect" results, the points *)
 (* where the Linux console (TERM=linux is what urwid.vterm.Terminal announces to the hosted  *)
@@ -22,7 +28,8 @@
 (* g = rows of cells <<code point, fg, bg, flag mask>>, cur = <<x, y>>, sb = scrollback rows, *)
 (* pen = <<fg, bg, mask>> of the cell the emulator would paint next (empty_char()),          *)
 (* reg = <<top, bottom>> of the scrolling region, tabs = tab stops inside the screen,        *)
-(* md = <<origin, insert, autowrap, new-line>> modes as 0 / 1, reps = replies sent.          *)
+(* md = <<origin, insert, autowrap, new-line>> modes as 0 / 1, reps = replies sent,          *)
+(* cs = 1 when the character set in use (G0 / G1 as shifted) is the graphics set, else 0.     *)
 (*                                                                                            *)
 (* Part (b) robustness: predicates over what is recorded per feed of arbitrary bytes.         *)
 EXTENDS Terminal
@@ -44,7 +51,10 @@ NewVT(w, h) ==
   [w |-> b.w, h |-> b.h, grid |-> b.grid, cx |-> b.cx, cy |-> b.cy, pend |-> b.pend, pen |-> b.pen,
    irm |-> b.irm, wrap |-> b.wrap, g0 |-> b.g0, g1 |-> b.g1, shift |-> b.shift, curs |-> b.curs, modes |-> b.modes,
    top |-> b.top, bot |-> b.bot, scrolled |-> b.scrolled, sb |-> b.sb,
-   tabs |-> DefaultTabs(w), sc |-> NoSave, lnm |-> FALSE]
+   tabs |-> DefaultTabs(w), sc |-> NoSave, lnm |-> FALSE, mcs |-> FALSE, u8lock |-> TRUE]
+\* mcs: the main character set selected by the program is UTF-8 (ESC % G) / the default 8-bit set (ESC % @, the initial state);
+\* u8lock: the terminal is configured for UTF-8 (urwid's encoding is "utf8"): input is UTF-8 whatever the program selects
+NewVTL(w, h, lock) == [NewVT(w, h) EXCEPT !.u8lock = lock]
 OM(t) == 6 \in t.modes                       \* origin mode (DECOM)
 ClampX(t, x) == Min2(Max2(x, 0), t.w - 1)
 ClampRow(t, y) == IF OM(t) THEN Min2(Max2(y, t.top), t.bot) ELSE Min2(Max2(y, 0), t.h - 1)
@@ -80,6 +90,37 @@ NextStop(t) == LET s == {x \in t.tabs : x > t.cx /\ x < t.w} IN IF s = {} THEN t
 HT(t) == [t EXCEPT !.cx = NextStop(t)]                \* moves only: nothing is erased; the last-column flag is left alone
 HTS(t) == [t EXCEPT !.tabs = @ \cup {t.cx}]
 TBC(t, n) == IF n = 0 THEN [t EXCEPT !.tabs = @ \ {t.cx}] ELSE IF n = 3 THEN [t EXCEPT !.tabs = {}] ELSE t
+
+\* main character set.  ESC % G: what follows is UTF-8 (RFC 3629), one glyph per well-formed sequence; ESC % @: what follows
+\* is single 8-bit characters, one glyph per byte.  The switch takes effect at its position in the stream.
+Utf8On(t) == t.u8lock \/ t.mcs
+MCS(t, on) == [t EXCEPT !.mcs = on]
+Utf8Encode(cp) ==
+  IF cp < 128 THEN <<cp>>
+  ELSE IF cp < 2048 THEN <<192 + (cp \div 64), 128 + (cp % 64)>>
+  ELSE IF cp < 65536 THEN <<224 + (cp \div 4096), 128 + ((cp \div 64) % 64), 128 + (cp % 64)>>
+  ELSE <<240 + (cp \div 262144), 128 + ((cp \div 4096) % 64), 128 + ((cp \div 64) % 64), 128 + (cp % 64)>>
+RECURSIVE Utf8EncodeAll(_)
+Utf8EncodeAll(cps) == IF cps = <<>> THEN <<>> ELSE Utf8Encode(Head(cps)) \o Utf8EncodeAll(Tail(cps))
+IsCont(b) == b >= 128 /\ b < 192
+SeqLen(b) == IF b < 128 THEN 1 ELSE IF b >= 194 /\ b < 224 THEN 2 ELSE IF b >= 224 /\ b < 240 THEN 3
+             ELSE IF b >= 240 /\ b < 245 THEN 4 ELSE 0                    \* 0: not the first byte of a sequence
+Replacement == 65533     \* what xterm shows for a byte that is part of no well-formed sequence (never generated in part (a))
+RECURSIVE Utf8DecodeFrom(_, _)
+Utf8DecodeFrom(bs, i) ==
+  IF i > Len(bs) THEN <<>> ELSE
+  LET n == SeqLen(bs[i]) IN
+  IF n = 0 \/ i + n - 1 > Len(bs) \/ (\E j \in 1..(n - 1) : ~IsCont(bs[i + j]))
+  THEN <<Replacement>> \o Utf8DecodeFrom(bs, i + 1)
+  ELSE LET cp == CASE n = 1 -> bs[i]
+                   [] n = 2 -> (bs[i] - 192) * 64 + (bs[i + 1] - 128)
+                   [] n = 3 -> (bs[i] - 224) * 4096 + (bs[i + 1] - 128) * 64 + (bs[i + 2] - 128)
+                   [] OTHER -> (bs[i] - 240) * 262144 + (bs[i + 1] - 128) * 4096 + (bs[i + 2] - 128) * 64 + (bs[i + 3] - 128)
+       IN <<cp>> \o Utf8DecodeFrom(bs, i + n)
+\* the glyphs a run of bytes (none of them a control character) stands for
+DecodeBytes(utf8, bs) == IF utf8 THEN Utf8DecodeFrom(bs, 1) ELSE bs
+WellFormedFor(utf8, bs) == /\ \A i \in 1..Len(bs) : bs[i] >= 32 /\ bs[i] # 127 /\ (utf8 \/ bs[i] < 128 \/ bs[i] >= 160)
+                           /\ LET d == DecodeBytes(utf8, bs) IN \A j \in 1..Len(d) : d[j] # Replacement
 
 \* save / restore cursor: ESC 7 / ESC 8 (position, rendition, charsets), CSI s / CSI u (position)
 SavedAt(t) == <<[pen |-> t.pen, g0 |-> t.g0, g1 |-> t.g1, shift |-> t.shift]>>
@@ -133,13 +174,15 @@ Ref(t, c) ==
     [] c.t = "so"   -> ShiftOut(t)
     [] c.t = "si"   -> ShiftIn(t)
     [] c.t = "scs"  -> Designate(t, c.a, IF c.b = 48 THEN "0" ELSE "B")     \* a = 0 / 1 (G0 / G1), b = final byte
+    [] c.t = "mcs"  -> MCS(t, c.a = 1)            \* a = 1: ESC % G, a = 0: ESC % @
+    [] c.t = "raw"  -> PutAll(t, DecodeBytes(Utf8On(t), c.ps), 1)     \* ps = the bytes as they are on the wire
     [] OTHER        -> t                          \* queries (cpr, dsr, da) change nothing
 
 \* the subset the property lists (Listed) and what a VT100 documents next to it: text runs, IND / NEL, CHA / VPA / CNL / CPL,
 \* ECH, tab stops, origin / insert / autowrap / new-line mode, save and restore cursor, charsets (Ext); queries (Query)
 Listed == {"put", "cr", "lf", "ri", "bs", "cup", "cuu", "cud", "cuf", "cub", "el", "ed", "ich", "dch", "il", "dl", "stbm", "sgr"}
 Ext    == {"txt", "ind", "nel", "cha", "vpa", "cnl", "cpl", "ech", "ht", "hts", "tbc", "decom", "irm", "decawm", "lnm",
-           "decsc", "decrc", "scosc", "scorc", "so", "si", "scs"}
+           "decsc", "decrc", "scosc", "scorc", "so", "si", "scs", "mcs", "raw"}
 Query  == {"cpr", "dsr", "da"}
 
 (* ---------------- console dialect (tolerated, DIVERGENCE only) ---------------- *)
@@ -165,6 +208,7 @@ Dialect(t, c) ==
     [] c.t = "stbm" -> IF c.b > t.h THEN <<t>> ELSE <<>>
     [] c.t = "ht"   -> <<[HT(t) EXCEPT !.pend = FALSE]>>            \* a tab clears the last-column flag
     [] c.t = "decrc" -> IF t.sc.pos = <<>> THEN <<t>> ELSE <<>>     \* nothing saved: nothing restored
+    [] c.t = "scs"  -> IF t.mcs THEN <<t>> ELSE <<>>                \* G0 / G1 are not designated while UTF-8 is selected
     [] OTHER        -> <<>>
 Cands(t, c, strict) == IF strict THEN <<Ref(t, c)>> ELSE <<Ref(t, c)>> \o Dialect(t, c)
 
@@ -197,8 +241,14 @@ AsCoded(t, c, rot) ==
     [] c.t = "ed" /\ c.a = 1 -> <<ED1Exclusive(t)>>
     [] c.t = "put" -> <<PutX(stale, c.a)>>
     [] c.t = "txt" -> <<PutAll(stale, c.ps, 1)>>
+    [] c.t = "raw" -> <<PutAll(stale, DecodeBytes(Utf8On(t), c.ps), 1)>>
     [] c.t = "ht" -> <<HTBlanking(t)>>
     [] OTHER -> <<>>
+
+\* deliberately wrong (refuted by TLC in VTerm.tla; the defect class "the decoder in force is looked up once per feed"): a switch of
+\* the main character set followed in the same feed by a run of bytes, decoded with the character set in force before the switch
+FrozenDecoderFeed(t, on, bs) == PutAll(MCS(t, on), DecodeBytes(Utf8On(t), bs), 1)
+ProperFeed(t, on, bs) == PutAll(MCS(t, on), DecodeBytes(Utf8On(MCS(t, on)), bs), 1)
 
 (* ---------------- observations and comparison ---------------- *)
 FlMask(s) == (IF 1 \in s THEN 1 ELSE 0) + (IF 3 \in s THEN 2 ELSE 0) + (IF 4 \in s THEN 4 ELSE 0)
@@ -247,11 +297,15 @@ B01(b) == IF b THEN 1 ELSE 0
 TabsEq(t, tabs) == {x \in t.tabs : x < t.w} = {tabs[i] : i \in 1..Len(tabs)}
 ModesOf(t) == <<B01(OM(t)), B01(t.irm), B01(t.wrap), B01(t.lnm)>>
 ModesEq(t, md) == ModesOf(t) = md
+\* the character set in use shows with the next glyph only (and tells a designation that was carried out from one that was
+\* ignored); it is compared at once
+CsOf(t) == IF ActiveSet(t) = "0" THEN 1 ELSE 0
+CharsetEq(t, cs) == CsOf(t) = cs
 
 Matches(t, o, strict) ==
   /\ ShapeOK(o.g, t.w, t.h) /\ GridEq(t, o.g, strict) /\ CursorEq(t, o.cur)
   /\ SbEq(t, o.sb, strict) /\ PenEq(t, o.pen, strict) /\ RegionEq(t, o.reg)
-  /\ TabsEq(t, o.tabs) /\ ModesEq(t, o.md)
+  /\ TabsEq(t, o.tabs) /\ ModesEq(t, o.md) /\ CharsetEq(t, o.cs)
 
 \* first clause (sentence of the property) on which observation o differs from reference state t
 Why(t, o, strict) ==
@@ -264,6 +318,7 @@ Why(t, o, strict) ==
   ELSE IF ~RegionEq(t, o.reg) THEN "screen_equals_reference.region"
   ELSE IF ~TabsEq(t, o.tabs) THEN "screen_equals_reference.tabstops"
   ELSE IF ~ModesEq(t, o.md) THEN "screen_equals_reference.modes"
+  ELSE IF ~CharsetEq(t, o.cs) THEN "screen_equals_reference.charset"
   ELSE "-"
 
 \* the observation a faithful emulator in state t would give
@@ -273,7 +328,7 @@ ObsCell(m) == <<m.c, m.fg, m.bg, FlMask(m.fl)>>
 ObsRow(r) == [x \in 1..Len(r) |-> ObsCell(r[x])]
 ObsOf(t) == [g |-> [y \in 1..t.h |-> ObsRow(t.grid[y])], cur |-> <<t.cx, t.cy>>,
              sb |-> [i \in 1..Len(t.sb) |-> ObsRow(t.sb[i])], pen |-> <<t.pen.fg, t.pen.bg, FlMask(t.pen.fl)>>,
-             reg |-> <<t.top, t.bot>>, tabs |-> SetToSeq({x \in t.tabs : x < t.w}), md |-> ModesOf(t)]
+             reg |-> <<t.top, t.bot>>, tabs |-> SetToSeq({x \in t.tabs : x < t.w}), md |-> ModesOf(t), cs |-> CsOf(t)]
 
 \* after a resize (not part of the listed subset: a VT100 has no resize) the reference adopts what the emulator shows
 CellOf(o) == [c |-> o[1], fg |-> o[2], bg |-> o[3], fl |-> UnMask(o[4]), p |-> 0]
